@@ -108,6 +108,7 @@ pub fn c05_instances(tier: Tier) -> Vec<Instance> {
                 i.fail_kinds = if total <= 16 { vec![0, 1, 2, 3] } else { vec![0, 3] };
                 // the clock is an input of the async read (90 s timeout): 30 s steps, never 90 s in a row
                 i.tick_budget = if imp == Impl::Tokio && seq.len() <= 2 { 1 } else { 0 };
+                i.storm_budget = if imp == Impl::Tokio && seq.len() <= 2 { 1 } else { 0 };
                 out.push(i);
             }
         }
@@ -120,6 +121,33 @@ pub fn c05_instances(tier: Tier) -> Vec<Instance> {
             let n = if thorough { 64 } else { 30 };
             (0..n).map(|i| if i % 3 == 0 { f_big(c, 252, 200) } else if i % 3 == 1 { f_mci(c, 8) } else { f_keepalive(c) }).collect()
         };
+        // every alignment of a frame boundary with the last byte of the receive allocation: a repeating
+        // pattern of all short frame kinds (decodable, undecodable, over-running, keep-alive, one
+        // 252-byte undecodable frame), shifted by k leading 4-byte frames, delivered as much at a time
+        // as the connection will take - the first read fills the 6120-byte buffer to its last byte
+        let pattern: Vec<Vec<u8>> = vec![
+            f_unknown(c), f_keepalive(c), f_small(c), f_badcim(c), f_mso(c), f_short_small(c),
+            f_tiny(c, 0, 3), f_mso_no_nul(c), f_mci_overcount(c), f_big(c, 252, 200),
+        ];
+        let plen: usize = pattern.iter().map(|f| f.len()).sum();
+        for shift in 0..(plen / 4) {
+            let mut frames: Vec<Vec<u8>> = (0..shift).map(|j| f_tiny(c, (j % 200) as u8 + 1, 3)).collect();
+            let mut total = shift * 4;
+            'fill: loop {
+                for f in &pattern {
+                    frames.push(f.clone());
+                    total += f.len();
+                    if total > 13_500 { break 'fill; }
+                }
+            }
+            for imp in [Impl::Blocking, Impl::Tokio] {
+                let mut i = Instance::new(&format!("aligned#{}#shift{}#{}", if c { "compressed" } else { "uncompressed" }, shift, imp_name(imp)), imp, c, frames.clone());
+                i.chunks = Chunks::Fill(thorough && shift % 8 == 0);
+                i.fail_budget = 1;
+                i.fail_kinds = vec![0];
+                out.push(i);
+            }
+        }
         for imp in [Impl::Blocking, Impl::Tokio] {
             let mut i = Instance::new(&format!("long#{}#{}", if c { "compressed" } else { "uncompressed" }, imp_name(imp)), imp, c, long.clone());
             i.chunks = Chunks::Boundary;
@@ -172,7 +200,8 @@ pub fn c06_instances(tier: Tier) -> Vec<Instance> {
                 i.script_writes = true;
                 i.allow_eof = false;
                 i.pending_budget = 2; // tokio: Pending; blocking: Interrupted
-                i.tick_budget = if imp == Impl::Tokio { 2 } else { 0 };
+                i.tick_budget = if imp == Impl::Tokio { if tier == Tier::Thorough { 2 } else { 1 } } else { 0 };
+                i.storm_budget = 1;
                 out.push(i);
             }
         }
@@ -205,6 +234,7 @@ pub fn c06_instances(tier: Tier) -> Vec<Instance> {
                 i.script_writes = true;
                 i.allow_eof = false;
                 i.pending_budget = 1;
+                i.storm_budget = if tier == Tier::Thorough { 1 } else { 0 };
                 out.push(i);
             }
         }
@@ -277,10 +307,13 @@ pub fn c07_instances(tier: Tier) -> Vec<Instance> {
                     j.allow_eof = false;
                     j.pending_budget = 1;
                     j.tick_budget = if imp == Impl::Tokio { 1 } else { 0 };
+                    j.storm_budget = 1;
                     out.push(j);
                 }
             }
         }
+        // (c) the caller's own reads and writes dropped around a keep-alive
+        out.extend(drop_write_instances(c, "dropw"));
     }
     out
 }
@@ -325,6 +358,34 @@ pub fn c09_instances(_tier: Tier) -> Vec<Instance> {
                     for verify in [true, false] {
                         let mut i = Instance::new(&format!("ver2#{cname}#v{v}-{pos}-verify-{verify}#{}", imp_name(imp)), imp, c, frames.clone());
                         i.verify_version = verify;
+                        i.chunks = Chunks::WholeOrBytes;
+                        i.allow_eof = false;
+                        out.push(i);
+                    }
+                }
+            }
+            // the gate does not depend on what this side sent: a handshake (default ISI, and one with
+            // every field away from its default, announcing version 8) precedes the reads
+            let isis: Vec<(&str, insim::insim::Isi)> = {
+                let mut v = vec![("default-isi", insim::insim::Isi::default())];
+                if let Some(k) = kinds.iter().find(|k| k.name == "ISI") {
+                    if let Some(f) = spec::ref_encode(k, &baseline(k, 1), c) {
+                        let mut b = bytes::BytesMut::from(&f[..]);
+                        if let Ok(Some(Packet::Isi(mut isi))) = Codec::new(mode_of(c)).decode(&mut b) {
+                            isi.version = 8;
+                            if isi.reqi.0 == 0 { isi.reqi = RequestId(1); }
+                            v.push(("custom-isi", isi));
+                        }
+                    }
+                }
+                v
+            };
+            for (iname, isi) in &isis {
+                for verify in [true, false] {
+                    for v in 0..=255u8 {
+                        let mut i = Instance::new(&format!("after-handshake#{cname}#{iname}-v{v}-verify-{verify}#{}", imp_name(imp)), imp, c, vec![f_ver(c, v), f_small(c)]);
+                        i.verify_version = verify;
+                        i.handshake = Some(isi.clone());
                         i.chunks = Chunks::WholeOrBytes;
                         i.allow_eof = false;
                         out.push(i);
@@ -434,6 +495,35 @@ pub fn c09(tier: Tier, replay: Option<String>) -> i32 {
 
 // ---------------------------------------------------------------------------------------------
 
+/// The caller gives up on a read (select! against a timer), writes, and may give up on that write as
+/// well: keep-alive replies must reach the wire whole and exactly once whatever happens to the
+/// caller's own packet.  The packet written is a SMALL (first byte differs from a reply's).
+fn drop_write_instances(c: bool, family: &str) -> Vec<Instance> {
+    let mut out = vec![];
+    let cname = if c { "compressed" } else { "uncompressed" };
+    let alpha: Vec<(&str, Vec<u8>)> = vec![("ka", f_keepalive(c)), ("small", f_small(c))];
+    let user = Packet::Small(Small { reqi: RequestId(7), subt: SmallType::Vta(VtnAction::End) });
+    for seq in sequences(&alpha, 2) {
+        if !seq.iter().any(|x| x.0 == "ka") { continue; }
+        let label: Vec<&str> = seq.iter().map(|x| x.0).collect();
+        let frames: Vec<Vec<u8>> = seq.iter().map(|x| x.1.clone()).collect();
+        for write_at in 1..=2usize {
+            let mut ops: Vec<Option<Packet>> = vec![None; 5];
+            ops.insert(write_at, Some(user.clone()));
+            let mut i = Instance::new(&format!("{family}#{cname}#{}-write@{write_at}#tokio", label.join("+")), Impl::Tokio, c, frames.clone());
+            i.program = Program::Ops(ops);
+            i.chunks = Chunks::Boundary;
+            i.script_writes = true;
+            i.allow_eof = true;
+            i.cancel_budget = 2;
+            i.cancel_writes = true;
+            i.pending_budget = 1;
+            out.push(i);
+        }
+    }
+    out
+}
+
 pub fn c19_instances(tier: Tier) -> Vec<Instance> {
     let mut out = vec![];
     for c in [true, false] {
@@ -461,6 +551,7 @@ pub fn c19_instances(tier: Tier) -> Vec<Instance> {
             let n = if tier == Tier::Thorough { 64 } else { 30 };
             (0..n).map(|i| if i % 3 == 0 { f_big(c, 252, 200) } else if i % 3 == 1 { f_mci(c, 8) } else { f_keepalive(c) }).collect()
         };
+        out.extend(drop_write_instances(c, "drop-write"));
         let mut i = Instance::new(&format!("cancel-long#{cname}#tokio"), Impl::Tokio, c, long);
         i.chunks = Chunks::Boundary;
         i.allow_eof = false;
